@@ -96,6 +96,7 @@ func (h *Heap[T]) UpdateAt(i int, item T) {
 	h.notifyIndexChanged(i)
 	h.percolateUp(i)
 	h.percolateDown(i)
+	h.gen++
 }
 
 func (h *Heap[T]) percolateUp(i int) {
